@@ -625,7 +625,8 @@ pub fn check(prop: &dyn Prop, o: &CheckOpts) -> CheckReport {
         let (min_scn, execs) = if f.violation.class == "oracle" || f.violation.class == "panic" {
             crate::shrink::minimise(prop, &f.scenario, &sig, 1500)
         } else {
-            (f.scenario.clone(), 0)
+            // abort / hang: every candidate runs in a process of its own
+            minimise_external(prop, &f.scenario, &f.violation.class, &outdir)
         };
         let (v2, hist, hh) = if f.violation.class == "oracle" || f.violation.class == "panic" {
             crate::shrink::exec_caught(prop, &min_scn, true)
@@ -780,6 +781,76 @@ pub fn check(prop: &dyn Prop, o: &CheckOpts) -> CheckReport {
         exit: if unknown > 0 || unopt_exit == 1 { 1 } else { 0 },
         outdir,
     }
+}
+
+/// How a scenario ends when executed alone in a fresh process of this build: "abort", "hang"
+/// (no result within `limit`), "violation" or "ok".
+fn outcome_in_fresh_process(prop: &dyn Prop, scn: &Scenario, dir: &Path, limit: Duration) -> &'static str {
+    let file = dir.join("minimise-candidate.json");
+    let body = serde_json::json!({"property": prop.id(), "class": "", "clause": "", "scenario": scn});
+    if std::fs::write(&file, serde_json::to_vec(&body).expect("HARNESS: ser candidate")).is_err() {
+        return "ok";
+    }
+    let exe = std::env::current_exe().expect("HARNESS: current_exe");
+    let mut child = match Command::new(exe).arg("exec-one").arg(&file).stdin(Stdio::null()).stdout(Stdio::piped()).stderr(Stdio::null()).spawn() {
+        Ok(c) => c,
+        Err(_) => return "ok",
+    };
+    let t = Instant::now();
+    loop {
+        match child.try_wait() {
+            Ok(Some(st)) => {
+                if !st.success() {
+                    return "abort";
+                }
+                let mut out = String::new();
+                if let Some(mut so) = child.stdout.take() {
+                    use std::io::Read;
+                    let _ = so.read_to_string(&mut out);
+                }
+                let v: serde_json::Value = serde_json::from_str(out.trim()).unwrap_or(serde_json::Value::Null);
+                return if v.get("violation").map(|x| x.is_null()).unwrap_or(true) { "ok" } else { "violation" };
+            }
+            Ok(None) => {
+                if t.elapsed() > limit {
+                    let _ = child.kill();
+                    let _ = child.wait();
+                    return "hang";
+                }
+                std::thread::sleep(Duration::from_millis(5));
+            }
+            Err(_) => return "abort",
+        }
+    }
+}
+
+/// Greedy descent like `shrink::minimise`, for violations that take the process down: a
+/// candidate is kept if it still ends in the same way (abort / hang) when run alone.
+fn minimise_external(prop: &dyn Prop, scn: &Scenario, class: &str, dir: &Path) -> (Scenario, usize) {
+    let (budget, limit) = if class == "hang" { (16usize, Duration::from_secs(6)) } else { (120usize, Duration::from_secs(HANG_SECS)) };
+    let mut best = scn.clone();
+    let mut best_size = crate::shrink::size(&best);
+    let mut execs = 0;
+    // the starting point must reproduce on its own (it was confirmed once already)
+    'outer: loop {
+        for c in crate::shrink::candidates(&best) {
+            if execs >= budget {
+                break 'outer;
+            }
+            let cs = crate::shrink::size(&c);
+            if cs >= best_size {
+                continue;
+            }
+            execs += 1;
+            if outcome_in_fresh_process(prop, &c, dir, limit) == class {
+                best = c;
+                best_size = cs;
+                continue 'outer;
+            }
+        }
+        break;
+    }
+    (best, execs)
 }
 
 /// the sibling binary built without `--release`
